@@ -424,3 +424,35 @@ package secp256k1
 //@   ensures (len(src) == 65 && src[0] == 4 && os2ip(src[1:33]) < P && os2ip(src[33:65]) < P && onaff(fp(os2ip(src[1:33])), fp(os2ip(src[33:65])))) ==> result1 == nil && result0.isValid && val(result0.z) == 1 && val(result0.x) == fp(os2ip(src[1:33])) && val(result0.y) == fp(os2ip(src[33:65])) && abs(result0) == aff(val(result0.x), val(result0.y))
 //@   ensures !((len(src) == 1 && src[0] == 0) || (len(src) == 33 && (src[0] == 2 || src[0] == 3) && os2ip(src[1:33]) < P && issq(pow(fp(os2ip(src[1:33])), 3) + 7)) || (len(src) == 65 && src[0] == 4 && os2ip(src[1:33]) < P && os2ip(src[33:65]) < P && onaff(fp(os2ip(src[1:33])), fp(os2ip(src[33:65]))))) ==> result0 == nil && result1 != nil
 //@   fresh result0
+//@
+//@ func (*Point).ScalarMult
+//@   props C04 C10 C17 C18
+//@   unverified ladder proof in progress
+//@   panics !p.isValid
+//@   ensures v.isValid && abs(v) == smul(old(val(s)), old(abs(p))) && result == v
+//@   modifies *v
+//@
+//@ func (*Point).scalarMultVartimeGLV
+//@   props C04 C07
+//@   unverified ladder proof in progress
+//@   panics !p.isValid
+//@   ensures v.isValid && abs(v) == smul(old(val(s)), old(abs(p))) && result == v
+//@   modifies *v
+//@
+//@ func (*Point).ScalarBaseMult
+//@   props C05 C08 C10 C17 C18
+//@   unverified ladder proof in progress
+//@   ensures v.isValid && abs(v) == smul(old(val(s)), G) && result == v
+//@   modifies *v
+//@
+//@ func (*Point).scalarBaseMultVartime
+//@   props C05 C07
+//@   unverified ladder proof in progress
+//@   ensures v.isValid && abs(v) == smul(old(val(s)), G) && result == v
+//@   modifies *v
+//@
+//@ func (*Point).DoubleScalarMultBasepointVartime
+//@   props C16 C07 C11 C13
+//@   panics !p.isValid
+//@   ensures v.isValid && abs(v) == padd(smul(old(val(u1)), G), smul(old(val(u2)), old(abs(p)))) && result == v
+//@   modifies *v
